@@ -15,6 +15,7 @@ package main
 //  cow           copy-on-write of the load balancer's published slice (C15)
 
 import (
+	"go/constant"
 	"fmt"
 	"go/types"
 	"path/filepath"
@@ -136,6 +137,7 @@ func checkC18(p *Prog, r *Report) {
 	c18Belief(p, r)
 	c18Publication(p, r)
 	c18SharedMaps(p, r)
+	c18WriteModes(p, r)
 }
 
 func c18Types(p *Prog, r *Report) {
@@ -772,4 +774,179 @@ func prePublication(p *Prog, fn *ssa.Function, owner *types.Named) bool {
 		})
 	}
 	return starters > 0 && okAll
+}
+
+
+// c18WriteModes: two rules on field writes that need no table.
+//
+//  (1) a field of a struct is written while the goroutine holds only the READ side of an RWMutex
+//      of that struct (and no exclusive lock of it): readers share the lock, so two of them race
+//      on the write.  Wrong for every field, listed or not.
+//  (2) a field of a shared object is written, without any lock of the object and after the object
+//      was published, by one goroutine while functions running under another goroutine entry point
+//      read it without a lock.
+func c18WriteModes(p *Prog, r *Report) {
+	const rule = "C18.write-modes"
+	r.Rule(rule, "no field is written while only the read side of an RWMutex of its struct is held; a field that goroutines of another entry point read without a lock is not written after the object went into use (outside construction, without a lock of the object)")
+	la := lockAnalyse(p)
+	fns := p.ScopedFuncs("proxy", "proxycore", "astra")
+	var bad []string
+	nw := 0
+	type wsite struct {
+		f     *types.Var
+		owner *types.Named
+		in    ssa.Instruction
+		fn    *ssa.Function
+		guardParam *ssa.Parameter // the write is under `if <bool parameter>`
+	}
+	var unlocked []wsite
+	for _, fn := range fns {
+		eachInstr(fn, func(in ssa.Instruction) {
+			st, ok := in.(*ssa.Store)
+			if !ok {
+				return
+			}
+			fa, ok := st.Addr.(*ssa.FieldAddr)
+			if !ok {
+				return
+			}
+			owner := namedOf(fa.X.Type())
+			if owner == nil || owner.Obj().Pkg() == nil || !strings.HasPrefix(owner.Obj().Pkg().Path(), modPath) {
+				return
+			}
+			if a, isAlloc := fa.X.(*ssa.Alloc); isAlloc && a.Parent() == fn {
+				return // under construction
+			}
+			f := fieldOfAddr(fa)
+			if isMutexType(f.Type()) {
+				return
+			}
+			nw++
+			readOnly, excl := false, false
+			for lk, mode := range la.mustAt[in] {
+				if !fieldOwnedBy(lk, owner) {
+					continue
+				}
+				if mode == "W" {
+					excl = true
+				} else {
+					readOnly = true
+				}
+			}
+			if readOnly && !excl {
+				bad = append(bad, fmt.Sprintf("%s: %s writes %s.%s while holding only the read side of the object's RWMutex: other readers hold the same lock, so the writes race with each other and with the reads", p.Pos(in.Pos()), fn.Name(), owner.Obj().Name(), f.Name()))
+				return
+			}
+			if excl || readOnly {
+				return
+			}
+			if !sharedOwner(p, owner) || prePublication(p, fn, owner) || isConcurrencySafeType(f.Type()) {
+				return
+			}
+			ws := wsite{f: f, owner: owner, in: in, fn: fn}
+			for _, ct := range dominatingConds(in.Block()) {
+				if par, ok := ct.Cond.(*ssa.Parameter); ok && ct.Truth {
+					ws.guardParam = par
+				}
+			}
+			unlocked = append(unlocked, ws)
+		})
+	}
+	// (2) for the unlocked post-publication writes: is the field read, without a lock of the owner,
+	// under another goroutine entry point?
+	roots := c17Roots(p)
+	rootsOf := map[*ssa.Function]map[*ssa.Function]bool{}
+	{
+		scope := c17Scope(p)
+		for _, root := range roots {
+			for fn := range reachableFrom(p, []*ssa.Function{root}, scope) {
+				if rootsOf[fn] == nil {
+					rootsOf[fn] = map[*ssa.Function]bool{}
+				}
+				rootsOf[fn][root] = true
+			}
+		}
+	}
+	// the generic connection loops reach the per-connection handlers: the handler's own entry point is the identity
+	generic := func(root *ssa.Function) bool {
+		rn := recvNamed(root)
+		return rn != nil && rn.Obj().Name() == "Conn"
+	}
+	rootSet := func(fn *ssa.Function) map[*ssa.Function]bool {
+		out := map[*ssa.Function]bool{}
+		for rt := range rootsOf[rootFn(fn)] {
+			if !generic(rt) {
+				out[rt] = true
+			}
+		}
+		for rt := range rootsOf[fn] {
+			if !generic(rt) {
+				out[rt] = true
+			}
+		}
+		return out
+	}
+	for _, ws := range unlocked {
+		// a write under `if initial` whose true-callers are all constructors happens before publication
+		if ws.guardParam != nil {
+			idx := -1
+			for i, q := range ws.fn.Params {
+				if q == ws.guardParam {
+					idx = i
+				}
+			}
+			sites, only := p.staticCallSites(ws.fn)
+			if idx >= 0 && only && len(sites) > 0 {
+				allPre := true
+				for _, cs := range sites {
+					a := cs.Common().Args[idx]
+					c, isC := a.(*ssa.Const)
+					if isC && c.Value != nil && c.Value.Kind() == constant.Bool && !constant.BoolVal(c.Value) {
+						continue // this caller never takes the branch
+					}
+					if !prePublication(p, cs.Parent(), ws.owner) {
+						allPre = false
+					}
+				}
+				if allPre {
+					continue
+				}
+			}
+		}
+		wroots := rootSet(ws.fn)
+		if len(wroots) == 0 {
+			continue // not reachable from a known goroutine entry point: start-up or shutdown code
+		}
+		for _, acc := range fieldAccesses(fns, ws.f) {
+			if acc.Write || acc.Fn == ws.fn {
+				continue
+			}
+			if a, ok := acc.Base.(*ssa.Alloc); ok && a.Parent() == acc.Fn {
+				continue
+			}
+			locked := false
+			for lk := range la.mustAt[acc.Instr] {
+				if fieldOwnedBy(lk, ws.owner) {
+					locked = true
+				}
+			}
+			if locked {
+				continue
+			}
+			rroots := rootSet(acc.Fn)
+			other := ""
+			for rt := range rroots {
+				if !wroots[rt] {
+					other = rt.String()
+				}
+			}
+			if other == "" {
+				continue
+			}
+			bad = append(bad, fmt.Sprintf("%s: %s writes %s.%s without a lock, after the object went into use; %s reads it without a lock under another goroutine entry point (%s)", p.Pos(ws.in.Pos()), ws.fn.Name(), ws.owner.Obj().Name(), ws.f.Name(), acc.Fn.Name(), strings.TrimPrefix(other, modPath+"/")))
+			break
+		}
+	}
+	r.count("field_writes_examined", nw)
+	r.check(len(bad) == 0 && nw > 25, rule, "field writes", "", fmt.Sprintf("%d field writes examined", nw), strings.Join(dedupe(bad), " || "))
 }
